@@ -84,6 +84,15 @@ func zzvC01Configs(thorough bool) []zzvC01Cfg {
 			}
 		}
 	}
+	// A name listed more than once (chart configs generate one entry per chart, bucket lists may overlap):
+	// it is approved at X if some listing's rate is not below X.
+	for _, rr := range [][2]float64{{1, 0}, {0, 1}, {1, 0.125}, {0.125, 1}} {
+		pc := &telemetry.ProgramConfig{Name: "example.com/p1", Versions: []string{"v1.0.0", "v2.0.0"},
+			Counters: []telemetry.CounterConfig{{Name: "c:{a,b}", Rate: rr[0]}, {Name: "c:{b,c}", Rate: rr[1]}, {Name: "c", Rate: rr[0]}, {Name: "c", Rate: rr[1]}},
+			Stacks:   []telemetry.CounterConfig{{Name: "s", Rate: rr[0], Depth: 5}, {Name: "s", Rate: rr[1], Depth: 5}}}
+		cfg := &telemetry.UploadConfig{GOOS: []string{"linux"}, GOARCH: []string{"amd64"}, GoVersion: []string{"go1.21.0"}, SampleRate: 1, Programs: []*telemetry.ProgramConfig{pc}}
+		out = append(out, zzvC01Cfg{fmt.Sprintf("progs=P1 repeated listings with rates %v then %v", rr[0], rr[1]), cfg})
+	}
 	return out
 }
 
